@@ -5,6 +5,7 @@ from mc.core import UnitResult
 from ref import universe as U
 
 ID = "C15"
+PARTS = ['call', 'error', 'solved']      # outcome classes every run must produce (guards against a part of the exploration silently not running)
 RULE = ("state A = sequence of bounds (every permutation of every multiset of <= 3/4 LowerBound/UpperBound over a 12-value pool, optional IsOneOf constraint list) passed to the real "
         "typevar.resolve_bounds_map; state B = generic function form x literal/callback argument tuple in every parameter order, checked by the real visitor; oracle: the solution's "
         "extension over the object universe (read with in_value) contains every lower bound's, is contained in every upper bound's/declared bound's, equals a constraint when "
